@@ -89,8 +89,10 @@ type SPSpec struct {
 	CertLayout          string    `json:"cert_layout,omitempty"` // plain | wrapped64 | wrapped76 | padded
 	ACS                 []ACSSpec `json:"acs"`
 	SLO                 []SLOSpec `json:"slo,omitempty"`
-	RawMetadata         string    `json:"raw_metadata,omitempty"` // used verbatim when set
-	LoginBase           string    `json:"login_base,omitempty"`
+	// EncKeyFirst names a key whose certificate is published in a KeyDescriptor use="encryption" placed BEFORE the signing descriptors.
+	EncKeyFirst string `json:"enc_key_first,omitempty"`
+	RawMetadata string `json:"raw_metadata,omitempty"` // used verbatim when set
+	LoginBase   string `json:"login_base,omitempty"`
 }
 
 type CustomAttr struct {
@@ -160,6 +162,12 @@ func (sp SPSpec) MetadataXML() []byte {
 	}
 	sso.SetAttr("protocolSupportEnumeration", NSSAMLP)
 	ed.AddText("\n  ").Add(sso)
+	if sp.EncKeyFirst != "" {
+		kd := xt.NewElem("md", NSMD, "KeyDescriptor").SetAttr("use", "encryption")
+		ki := xt.NewElem("ds", NSDS, "KeyInfo").Declare("ds", NSDS)
+		kd.Add(ki.Add(xt.NewElem("ds", NSDS, "X509Data").Add(xt.NewElem("ds", NSDS, "X509Certificate").AddText(Key(sp.EncKeyFirst).CertB64()))))
+		sso.AddText("\n    ").Add(kd)
+	}
 	for _, kn := range sp.KeyNames {
 		kd := xt.NewElem("md", NSMD, "KeyDescriptor")
 		if sp.KeyUse != "" {
